@@ -1,5 +1,6 @@
 import RtenVerif.Driver.Util
 import RtenVerif.Model.Layout
+import RtenVerif.Model.Copy
 
 /-!
 `model_C09`: one chain of layout operations per request line.
@@ -179,6 +180,11 @@ def handleRange (ws : List String) : String :=
 
 def handle (line : String) : String :=
   if line.startsWith "R " then handleRange ((words line).drop 1) else
+  if line.startsWith "CB " then
+    match (words line).drop 1 |>.mapM String.toNat? with
+    | some [rows, cols, rs, cs] => showNats "," (RtenVerif.Copy.copyBlocked rows cols rs cs (fun i => i))
+    | _ => "bad-request"
+  else
   match line.splitOn " | " with
   | src :: opsS =>
     match words src with
